@@ -71,6 +71,20 @@ pub fn verif_width(g: &str) -> (r: usize) ensures r == gw(g@), r <= 2 { unimplem
 pub broadcast axiom fn axiom_cow_to_string(c: &Cow<'_, str>, r: String)
     ensures #[trigger] vstd::string::to_string_from_display_ensures::<Cow<'_, str>>(c, r) <==> r@ == cow_view(c);
 
+// ---- strip_ansi_codes: every escape sequence goes, whatever its kind ----
+/// the text of s without its escape sequences: `strip_ansi_codes_from_strings_iterator(ansi_strings_iterator(s))`
+/// (the iterator - U26 - knows CSI, OSC and other ESC sequences); uninterpreted
+pub uninterp spec fn stripped(s: Seq<char>) -> Seq<char>;
+#[verifier::external_body]
+pub struct VItems<'a> { _p: std::marker::PhantomData<&'a ()> }
+impl<'a> VItems<'a> { pub uninterp spec fn of(&self) -> Seq<char>; }
+#[verifier::external_body]
+pub fn ansi_strings_iterator<'a>(s: &'a str) -> (r: VItems<'a>) ensures r.of() == s@ { unimplemented!() }
+#[verifier::external_body]
+pub fn strip_ansi_codes_from_strings_iterator<'a>(items: VItems<'a>) -> (r: String) ensures r@ == stripped(items.of()) { unimplemented!() }
+//@ fn src/ansi/mod.rs strip_ansi_codes
+//@| ensures r@ == stripped(s@),  // @C08,C09:every.escape.sequence.of.a.line.is.stripped.whatever.its.kind.there.is.no.shortcut.that.looks.for.one.kind.only
+
 /// the fill character for a cut double-width grapheme is one column wide (callers pass `Some(' ')` or `None`)
 pub open spec fn fill_ok(fill2w: Option<char>) -> bool {
     fill2w matches Some(c) ==> is_grapheme(seq![c]) && gw(seq![c]) == 1
